@@ -157,6 +157,23 @@ fn pgn_roundtrip(g: &Game) -> (String, String) {
     (hex(&pgn), r)
 }
 
+// what Game::from_pgn makes of a text: outcome, and for an accepted text the imported moves, status, result tag and position
+fn pgn_import_obs(s: &str) -> (&'static str, String) {
+    match quiet(|| Game::from_pgn(s)) {
+        Err(_) => ("panic", String::new()),
+        Ok(Err(e)) => ("err", format!("|ek={}", match e {
+            errors::LibChessError::InvalidPGNString => "pgn",
+            errors::LibChessError::IllegalActionDetected => "illegal-action",
+            errors::LibChessError::GameIsAlreadyFinished => "finished",
+            _ => "other" })),
+        Ok(Ok(g)) => {
+            let h = g.get_action_history();
+            ("ok", format!("|gs={}|tag={}|mvl={}|d={}|np={}", gstatus_str(g.get_game_status()), hex(&result_tag(&g)),
+                h.get_moves().iter().map(mv_text).collect::<Vec<_>>().join(","), describe(&g.get_position()).to_string(), h.get_positions().len()))
+        }
+    }
+}
+
 fn game_fields(g: &Game, fin: bool, std_start: bool) -> String {
     let mut f: Vec<String> = vec![];
     let h = g.get_action_history();
@@ -491,10 +508,11 @@ fn mutate(rng: &mut Rng, s: &str) -> String {
     cs.into_iter().collect()
 }
 
-fn suite_str(w: &mut dyn Write, tier: &str, seed: u64, shard: usize, nshards: usize) {
+fn suite_str(w: &mut dyn Write, tier: &str, seed: u64, shard: usize, nshards: usize, variant: &str) {
     let mut rng = Rng::new(seed * 1000 + 77 + shard as u64);
     let maxlen = tier_n(tier, 4, 5);
     let mut n = 0usize;
+    if variant != "pgn" {
     // exhaustive short strings
     let mut idx: Vec<usize> = vec![];
     let mut count = 0usize;
@@ -549,6 +567,28 @@ fn suite_str(w: &mut dyn Write, tier: &str, seed: u64, shard: usize, nshards: us
         n += 1;
         writeln!(w, "F|id=s{}_{}|in={}|{}", shard, n, hex(&s), fen_obs(&s)).unwrap();
     }
+    }
+    // PGN: hand-assembled texts that exercise the tokeniser (tag pairs, blank-line split, move and result tokens)
+    {
+        const HEADERS: [&str; 14] = ["", "[Event \"?\"]\n", "[Result \"1-0\"]\n", "[Result \"0-1\"]\n[Result \"?\"]\n", "[ Result \"1-0\"]\n",
+            "[Result   \"1/2-1/2\"  ]\n", "[Result \"a b,c:d/e.f?-\"]\n", "[Result\"1-0\"]\n", "[Result \"1-0\" x]\n", "[Result \"\"]\n",
+            "[Result\t\"0-1\"\n]\n", "[[Result \"1-0\"]]\n", "[Re_sult9 \"1-0\"][Result \"*\"]\n", "[Result \"0-1\"\n"];
+        const SEPS: [&str; 10] = ["\n", "\n\n", "\r\n\r\n", "\n\r\n", "\r\n\n\n", "\n\n\n\n", "\r\r\n\n", "\n \n", "", "\n\r\r\n\n"];
+        const BODIES: [&str; 30] = ["", "1.e4 e5", "1.e4 e5 1-0", "1.e4 e5 0-1", "1.e4 e5 1/2-1/2", "1. e4 e5 2. Nf3 Nc6 3. Bb5 a6", "e4e5Nf3", "1.e4\ne5\n2.Nf3",
+            "1.e4 e5\n\n2.Nf3", "1.f3 e5 2.g4 Qh4# 1-0", "1.f3 e5 2.g4 Qh4#", "1.f3 e5 2.g4 Qh4+", "1.f3 e5 2.g4 Qh4", "1.f3 e5 2.g4 Qh4# 3.a3", "1.e4 e5 2.Ke2 Ke7 3.Ke1 Ke8 4.Ke2 Ke7 5.Ke1 Ke8 6.a3",
+            "1-0 1.e4", "1/2-1/2", "0-1", "1.e4 1-00-1", "1.Nf3 Nf6 2.Ng1 Ng8 3.Nf3 Nf6 4.Ng1 Ng8 1-0", "1.e2e4", "1.Pe4", "1.e4xx", "1.xe4", "1.e4=Q", "1.Nbf3", "1.N1f3 e5 2.Ngf3",
+            "1.e4 d5 2.exd5 Qxd5 3.Nc3 Qe5+ 4.Be2 1/2-1/2", "1.O-O", "1.e4 e5 2.Nf3 Nc6 3.Bc4 Bc5 4.O-O-O"];
+        let mut i = 0usize;
+        for h in HEADERS.iter() { for sp in SEPS.iter() { for b in BODIES.iter() {
+            i += 1;
+            if i % nshards != shard { continue }
+            if tier == "quick" && (i / nshards) % 4 != (seed as usize) % 4 { continue }
+            let s = format!("{}{}{}", h, sp, b);
+            let (r, out) = pgn_import_obs(&s);
+            n += 1;
+            writeln!(w, "N|id=s{}_{}|in={}|pgn={}|slow=no{}", shard, n, hex(&s), r, out).unwrap();
+        } } }
+    }
     // PGN: exported games, mutated
     let np = tier_n(tier, 300, 10000) / nshards;
     let mut maxms = 0u128;
@@ -579,13 +619,20 @@ fn suite_str(w: &mut dyn Write, tier: &str, seed: u64, shard: usize, nshards: us
         }
         if rng.chance(1, 3) { let _ = g.make_move(&Action::Resign(Color::White)); }
         let base = match quiet(|| g.as_pgn()) { Ok(s) => s, Err(_) => "[Event \"?\"]\n\n1.e4 e5 1-0".to_string() };
-        let s = if rng.chance(1, 5) { base } else { mutate(&mut rng, &base) };
+        let s = match rng.below(5) {
+            0 => base,
+            1 => { // another line wrapping of the same game: single blanks of the move text become line ends or back
+                let cut = base.find("\n\n").map(|i| i + 2).unwrap_or(0);
+                let (hd, body) = base.split_at(cut);
+                let body: String = body.chars().map(|c| if c == ' ' || c == '\n' { if rng.chance(1, 3) { '\n' } else { ' ' } } else { c }).collect();
+                format!("{}{}", hd, body) }
+            _ => mutate(&mut rng, &base) };
         let t0 = std::time::Instant::now();
-        let r = match quiet(|| Game::from_pgn(&s)) { Ok(Ok(_)) => "ok", Ok(Err(_)) => "err", Err(_) => "panic" };
+        let (r, out) = pgn_import_obs(&s);
         let ms = t0.elapsed().as_millis();
         if ms > maxms { maxms = ms }
         n += 1;
-        writeln!(w, "N|id=s{}_{}|in={}|pgn={}|slow={}", shard, n, hex(&s), r, if ms > 5000 { "yes" } else { "no" }).unwrap();
+        writeln!(w, "N|id=s{}_{}|in={}|pgn={}|slow={}{}", shard, n, hex(&s), r, if ms > 5000 { "yes" } else { "no" }, out).unwrap();
     }
 }
 
@@ -839,7 +886,7 @@ fn main() {
                     suite_board(&mut cx, &tier, shard, nshards, &variant);
                 }
                 "game" => suite_game(&mut w, &tier, seed, shard, nshards, &variant),
-                "str" => suite_str(&mut w, &tier, seed, shard, nshards),
+                "str" => suite_str(&mut w, &tier, seed, shard, nshards, &variant),
                 "prim" => suite_prim(&mut w, &tier, seed, shard, nshards, &variant),
                 "sym" => suite_sym(&mut w, &tier, seed, shard, nshards),
                 _ => {}
